@@ -497,7 +497,8 @@ class KeywordSearches:
                 next_ancestry = ancestry + [(data, key)]
                 if isinstance(val, dict):
                     if val is not None and scan_node in val:
-                        eval_val = val[scan_node]
+                        eval_val = KeywordSearches._hashable(
+                            val[scan_node])
                         if (match_value is None
                             or Searches.search_matches(
                                 PathSearchMethods.GREATER_THAN, match_value,
@@ -704,7 +705,8 @@ class KeywordSearches:
                         key, translated_path.separator))
                 if isinstance(val, dict):
                     if val is not None and scan_node in val:
-                        eval_val = val[scan_node]
+                        eval_val = KeywordSearches._hashable(
+                            val[scan_node])
                         if (match_value is None
                             or Searches.search_matches(
                                 PathSearchMethods.LESS_THAN, match_value,
@@ -894,6 +896,15 @@ class KeywordSearches:
 
 
     @staticmethod
+    def _hashable(value: Any) -> Any:
+        """Get a value by which to group nodes; unhashable data by its text."""
+        try:
+            hash(value)
+        except TypeError:
+            return str(value)
+        return value
+
+    @staticmethod
     # pylint: disable=locally-disabled,too-many-locals,too-many-branches,too-many-statements
     def distinct(
         data: Any, invert: bool, parameters: List[str], yaml_path: YAMLPath,
@@ -966,7 +977,8 @@ class KeywordSearches:
                 eval_ele = (NodeCoords.unwrap_node_coords(raw_ele)
                     if isinstance(raw_ele, NodeCoords) else raw_ele)
                 if eval_ele is not None and scan_node in eval_ele:
-                    eval_val = eval_ele[scan_node]
+                    eval_val = KeywordSearches._hashable(
+                        eval_ele[scan_node])
                     if eval_val in seen_values:
                         seen_values[eval_val].append(wrapped_ele)
                     else:
@@ -990,7 +1002,8 @@ class KeywordSearches:
                         wrapped_ele = NodeCoords(
                             val, data, key, next_path, next_ancestry,
                             relay_segment)
-                        eval_val = val[scan_node]
+                        eval_val = KeywordSearches._hashable(
+                            val[scan_node])
                         if eval_val in seen_values:
                             seen_values[eval_val].append(wrapped_ele)
                         else:
@@ -1018,7 +1031,8 @@ class KeywordSearches:
             for idx, ele in enumerate(data):
                 next_path = translated_path + f"[{idx}]"
                 next_ancestry = ancestry + [(data, idx)]
-                eval_val = (NodeCoords.unwrap_node_coords(ele)
+                eval_val = KeywordSearches._hashable(
+                    NodeCoords.unwrap_node_coords(ele)
                     if isinstance(ele, NodeCoords) else ele)
                 wrapped_ele = (ele
                     if isinstance(ele, NodeCoords) else NodeCoords(
@@ -1031,7 +1045,7 @@ class KeywordSearches:
 
         else:
             # Non-complex data is always unique
-            seen_values[data] = [NodeCoords(
+            seen_values[KeywordSearches._hashable(data)] = [NodeCoords(
                 data, parent, parentref, translated_path, ancestry,
                 relay_segment)]
 
@@ -1108,7 +1122,8 @@ class KeywordSearches:
                 eval_ele = (NodeCoords.unwrap_node_coords(raw_ele)
                     if isinstance(raw_ele, NodeCoords) else raw_ele)
                 if eval_ele is not None and scan_node in eval_ele:
-                    eval_val = eval_ele[scan_node]
+                    eval_val = KeywordSearches._hashable(
+                        eval_ele[scan_node])
                     if eval_val in seen_values:
                         seen_values[eval_val].append(wrapped_ele)
                     else:
@@ -1132,7 +1147,8 @@ class KeywordSearches:
                         wrapped_ele = NodeCoords(
                             val, data, key, next_path, next_ancestry,
                             relay_segment)
-                        eval_val = val[scan_node]
+                        eval_val = KeywordSearches._hashable(
+                            val[scan_node])
                         if eval_val in seen_values:
                             seen_values[eval_val].append(wrapped_ele)
                         else:
@@ -1160,7 +1176,8 @@ class KeywordSearches:
             for idx, ele in enumerate(data):
                 next_path = translated_path + f"[{idx}]"
                 next_ancestry = ancestry + [(data, idx)]
-                eval_val = (NodeCoords.unwrap_node_coords(ele)
+                eval_val = KeywordSearches._hashable(
+                    NodeCoords.unwrap_node_coords(ele)
                     if isinstance(ele, NodeCoords) else ele)
                 wrapped_ele = (ele
                     if isinstance(ele, NodeCoords) else NodeCoords(
@@ -1173,7 +1190,7 @@ class KeywordSearches:
 
         else:
             # Non-complex data is always unique
-            seen_values[data] = [NodeCoords(
+            seen_values[KeywordSearches._hashable(data)] = [NodeCoords(
                 data, parent, parentref, translated_path, ancestry,
                 relay_segment)]
 
